@@ -889,6 +889,87 @@ def run_pools(chk, world, n_toy, quick):
     return results
 
 
+
+# ====================================================================================================================
+# indel tables: stage calls on a Coverage that HAS a read-support table for catalogued indels (Coverage._indels)
+# ====================================================================================================================
+def indel_table_coverage(gene, table, indels, **params):
+    """Coverage over the TOY gene with an explicit indel table {(pos, op): (reads without, reads with)} (what the realigner gives)"""
+    from aldy.profile import Profile
+    from aldy.coverage import Coverage
+    cov = collections.defaultdict(dict)
+    for (pos, op), c in table:
+        cov[pos][op] = [(60, 60)] * c
+    return Coverage(gene, Profile("test", **params), None, cov, {k: list(v) for k, v in indels.items()}, {})
+
+
+def run_indel_tables(chk, n):
+    """the stage calls (estimate_major / estimate_minor under several structures, in several orders) on one Coverage object must leave
+    the evidence untouched (coverage-immutable) and give what they give on a freshly built equal Coverage (stage-order-independent):
+    the filters of the stages work on copies, and a copy that shares the indel table with the original must not be written through."""
+    from aldy.major import estimate_major
+    from aldy.minor import estimate_minor
+    from aldy.solutions import CNSolution
+    rng = chk.rng
+    g = toy_gene()
+    sites = sorted(g.mutations)
+    indel_keys = [m for m in sites if m[1][:3] in ("ins", "del")]
+    structs = [["1", "1"], ["1", "1", "1"], ["1", "1", "1", "1"], ["1"]]
+    for k in range(n):
+        d = rng.choice([20, 30, 40])
+        table, indels = [], {}
+        for (pos, op) in sites:
+            if op[:3] in ("ins", "del"):
+                continue
+            if rng.random() < 0.4:
+                c = int(d * rng.choice([0.15, 0.3, 0.5, 1]) * rng.uniform(0.8, 1.2))
+                if c > 0:
+                    table.append(((pos, op), c))
+        for pos in sorted({p for p, _ in sites}):
+            table.append(((pos, "_"), int(d * rng.uniform(0.8, 1.2))))
+        for key in indel_keys:
+            # support anywhere between "a few reads" and "every read": fractions between the thresholds of 2, 3 and 4 copies included
+            frac = rng.choice([0.0, 0.08, 0.14, 0.2, 0.3, 0.5, 1.0])
+            y = int(d * frac)
+            indels[key] = (d - y, y)
+        order = rng.sample(range(len(structs)), rng.choice([2, 3]))
+        case = {"id": f"i{k}", "table": [[list(t[0]), t[1]] for t in table], "indels": [[list(a), list(b)] for a, b in indels.items()],
+                "order": [structs[i] for i in order]}
+
+        def build():
+            return indel_table_coverage(g, table, indels)
+
+        cov = build()
+        e0 = snap_evidence(cov)
+        h0 = digest(e0)
+        chk.case("indel-table", case, nontrivial=any(0 < v[1] < d for v in indels.values()), sample=case if k < 2 else None)
+        for i in order:
+            st = structs[i]
+
+            def stage(c):
+                try:
+                    ms = estimate_major(g, c, CNSolution(g, 0, st), "any")
+                    out = {"major": sorted((canon_major(m) for m in ms), key=lambda x: json.dumps(x, sort_keys=True, default=str))}
+                    if ms:
+                        best = sorted(ms, key=lambda m: (int(1000 * m.score), m._solution_nice()))[:1]
+                        out["minor"] = [canon_minor(x, with_major=False) for x in estimate_minor(g, c, best, "any")]
+                    return out
+                except Exception as e:  # noqa
+                    return {"error": f"{type(e).__name__}: {str(e)[:120]}"}
+            got = stage(cov)
+            chk.evaluations += 1
+            se = snap_evidence(cov)
+            if digest(se) != h0:
+                chk.fail("coverage-immutable", {"op": "estimate_major/estimate_minor", "what": "indel-table coverage changed"},
+                         {"indel_case": case, "structure": st}, "Coverage compares equal to its image at construction", first_diff(e0, se))
+                cov = build()
+            want = stage(build())
+            diff = same(want, got, tol=SCORE_RESOLUTION)
+            if diff:
+                chk.fail("stage-order-independent", {"op": "estimate_major/estimate_minor", "after": "stage calls under other structures"},
+                         {"indel_case": case, "structure": st}, {"fresh": want}, {"after_other_calls": got, "diff": diff})
+
+
 # ====================================================================================================================
 # entry points
 # ====================================================================================================================
@@ -994,7 +1075,9 @@ def run(chk):
                 "(>= 2 operations, snapshots after each).  hash seeds = the full job list (12 single-gene x format jobs, 10 multi-gene "
                 "jobs, failing gene, stage results, exact-tie witness) in fresh processes under PYTHONHASHSEED 0-7 (+ NA10860/CYP2D6 "
                 "under two seeds).  pools = two witnesses + random TOY depth tables x 2-3 candidates of different structures, all "
-                "ordered sub-pools, + major solutions of the generated gene under 3-4 structures")
+                "ordered sub-pools, + major solutions of the generated gene under 3-4 structures.  indel tables = random TOY depth tables WITH "
+                "a read-support table for the catalogued indels (fractions between the thresholds of 2-4 copies), stage calls under 2-3 "
+                "structures in random order on ONE Coverage object, evidence snapshot and comparison with a fresh equal Coverage after each")
     chk.extra_trusted = ["gendb.py / simreads.py generators; deep-snapshot code (dict order kept, sets sorted); PYTHONHASHSEED handling of CPython",
                          "Frame.v programs are hand transcriptions of the Python operations (tie = snapshots, not a translator)"]
     chk.assumptions = ["scores compared to 1e-6 abs + 1e-9 rel, everything else (names, variant lists, output files) exactly"]
@@ -1034,6 +1117,7 @@ def run(chk):
         t0 = time.time()
         acc = detect_variants(chk, world)
         pool_results = run_pools(chk, world, 8 if quick else 120, quick)
+        run_indel_tables(chk, 10 if quick else 150)
         t1 = time.time()
         pending = run_histories(chk, world, 24 if quick else 300, jobs, d)
         chk.notes.append(f"[C14] in-process: pools {t1 - t0:.0f}s, histories {time.time() - t1:.0f}s")
